@@ -179,7 +179,7 @@ def na_case(draw):
     any_dna = any(x["dna"] for x in strands)
     ffs = ["AMBER", "CHARMM", "TYL06"] + ([] if any_dna else ["PARSE"])
     return dict(part="na", desc=dict(chains=[], na=strands), ff=draw(st.sampled_from(ffs)),
-                opts=draw(st.sampled_from([[], [], ["--noopt"], ["--nodebump"]])))  # fmt: skip
+                opts=draw(st.sampled_from([[], [], ["--noopt"], ["--nodebump"], ["--drop-water"]])))  # fmt: skip
 
 
 def check_na(case):
